@@ -463,6 +463,22 @@ def origin_assumes(b):
                     table[o] = None
                 else:
                     table[o] = tv
+        elif isinstance(c, Cmp) and c.op in ('in', 'not in') and isinstance(c.left, Phi) \
+                and not isinstance(c.right, Phi):
+            for a, o in c.left.alts:
+                if o is None and isinstance(a, Obj):
+                    o = a.site
+                if o is None:
+                    table = None
+                    break
+                r = b.b.compare('in', a, c.right)
+                tv = None
+                if isinstance(r, Const):
+                    tv = bool(r.value) if c.op == 'in' else not bool(r.value)
+                if o in table and table[o] != tv:
+                    table[o] = None
+                else:
+                    table[o] = tv
         elif isinstance(c, Cmp) and c.op in ('==', '!=', 'is', 'is not') and \
                 (isinstance(c.left, Phi) != isinstance(c.right, Phi)):
             phi, other = (c.left, c.right) if isinstance(c.left, Phi) else (c.right, c.left)
